@@ -376,7 +376,8 @@ package dt
 // lock / with: the optional mutex is read through an atomic.Value and a generic
 // type switch, outside the engine's subset. ASSUMED: lock() returns the set's
 // mutex (or nil) holding it, and initialises the hash index if needed; with(m)
-// releases it.
+// releases it. A call of lock() that returns found the mutex free (Lock on a held
+// mutex does not return).
 //@ func (*Set).lock
 //@   props C18 C13
 //@   trusted optional mutex behind atomic.Value (outside the modelled subset)
@@ -385,6 +386,7 @@ package dt
 //@   ensures s.hash != nil && (old(s.hash) != nil ==> s.hash == old(s.hash)) && (old(s.hash) == nil ==> fresh(s.hash) && len(s.hash) == 0 && (forall k: int :: !haskey(s.hash, k)))
 //@   ensures result != nil ==> held(result)
 //@   ensures result == smutex(s.mtx)
+//@   ensures result != nil ==> !old(held(result))
 
 //@ func (*Set).with
 //@   props C18 C13
